@@ -1,6 +1,7 @@
 import TeaTasting.Driver.Proto
 import TeaTasting.Driver.Stubs
 import TeaTasting.Model.Multiplicity
+import TeaTasting.Model.Family
 
 /-! Driver for the multiple-testing loops: hand-written loops of `Model/Multiplicity.lean` over the
 GENERATED `adjust` functions, at `ℚ`.  `rpowQ x y` is `x ^ y` for a natural exponent (what Python
@@ -29,6 +30,23 @@ def handler (cmd : String) : P String := do
     let cfg : FwerCfg ℚ := { alpha := a, m := (ps.length : ℚ) }
     let adj := if meth = "sidak" then Sidak.adjust rpowQ cfg else Bonferroni.adjust cfg
     pure (showOuts (if dep then runStepdown adj ps else runStepup adj ps))
+  | "family" =>
+    -- `family <sel: - | k name…> <n experiments> {<experiment> <k> {<metric> <pvalue>}…}…`:
+    -- the family of `_copy_results` (experiment:metric:pvalue in iteration order) and, after `|`, the
+    -- structure the positions 0,1,2,… are written back to
+    let sel ← (do
+      match (← get) with
+      | "-" :: ts => set ts; pure (none : Option (List String))
+      | _ => let l ← list str; pure (some l))
+    let exps ← list (do
+      let e ← str
+      let ms ← list (do let m ← str; let p ← rat; pure (m, p))
+      pure (e, ms))
+    let fam := Family.family sel exps
+    let back := Family.adjustAll sel exps (fun l => List.range l.length)
+    let famS := " ".intercalate (fam.map (fun x => s!"{x.1}={showRat x.2}"))
+    let backS := " ".intercalate (back.map (fun e => s!"{e.1}[" ++ ",".intercalate (e.2.map (fun m => s!"{m.1}:{m.2}")) ++ "]"))
+    pure (s!"{fam.length} {famS} | {backS}")
   | _ => throw s!"unknown command {cmd}"
 
 def main : IO Unit := do loop handler (← IO.getStdin)
